@@ -63,6 +63,7 @@ def build(provider, cfg, sched, start=0, qsize_arg=None):
     from harness.sched import SchedQueue
 
     n, fail = cfg["n"], cfg["fail"]
+    gt = False
     SchedQueue.sched = sched
     SchedQueue.created = []
     conf = OmegaConf.create({
@@ -94,10 +95,20 @@ def build(provider, cfg, sched, start=0, qsize_arg=None):
         loader = ("load_video", lambda fn, **kw: video)
         kw = dict(video_start_idx=start, video_end_idx=start + n)
     else:
+        gt = provider == "LabelsReaderGT"
+        provider = "LabelsReader"
         sizes = [[(6, 10), (8, 6), (6, 10)], [(4, 12), (8, 8)]]
         vids = [FakeVideo(200, c=1, sizes=[sizes[0][i % 3] for i in range(200)]), FakeVideo(200, c=1, sizes=[sizes[1][i % 2] for i in range(200)])]
         frames = [((p + start) % 2, 3 * p + start) for p in range(n)]  # alternating videos, non-contiguous increasing frame_idx
-        labels = FakeLabels(vids, frames, fail_pos=(fail - 1) if fail else None, sched=sched)
+        inst, skel = None, None
+        if gt:
+            # the reader as the top-down predictor uses it when centroids come from the labels (instances_key=True): frames
+            # carry their instances; some labelled frames have none, or only an empty one - they are frames all the same
+            from harness.fakes import FakeInst, FakeSkel
+            inst = {p: (() if (p + start) % 3 == 1 else (FakeInst(empty=True),) if (p + start) % 5 == 4 else tuple(FakeInst(seed=7 * p + q) for q in range(1 + p % 2)))
+                    for p in range(n)}
+            skel = [FakeSkel(2)]
+        labels = FakeLabels(vids, frames, fail_pos=(fail - 1) if fail else None, sched=sched, instances=inst, skeletons=skel)
         meta["expect"] = [dict(frame_idx=fi, video_idx=vi, size=list(vids[vi].sizes[fi]), pix=(fi % 251) + 1) for (vi, fi) in frames]
         index = {(vi, fi): p + 1 for p, (vi, fi) in enumerate(frames)}
         fonly = {fi: p + 1 for p, (vi, fi) in enumerate(frames)}
@@ -106,7 +117,12 @@ def build(provider, cfg, sched, start=0, qsize_arg=None):
         kw = {}
         conf.data_config.preprocessing.max_height = 8
         conf.data_config.preprocessing.max_width = 12
-    pred = SingleInstancePredictor(confmap_config=conf, batch_size=cfg["b"], preprocess_config=None)
+    if provider == "LabelsReader" and gt:
+        from sleap_nn.inference.predictors import TopDownPredictor
+        pred = TopDownPredictor(centroid_config=None, confmap_config=conf, centered_instance_backbone_type="unet", batch_size=cfg["b"], preprocess_config=None)
+        pred.instances_key = True
+    else:
+        pred = SingleInstancePredictor(confmap_config=conf, batch_size=cfg["b"], preprocess_config=None)
     old = (prov.Queue, getattr(prov.sio, loader[0]))
     prov.Queue = SchedQueue
     setattr(prov.sio, loader[0], loader[1])
@@ -415,9 +431,9 @@ def run(tier, seed):
     n_forced = 0
     t0 = time.time()
     for k, (init, p) in enumerate(jobs):
-        provider = "VideoReader" if k % 2 == 0 else "LabelsReader"
+        provider = "VideoReader" if k % 2 == 0 else ("LabelsReader" if k % 4 == 1 else "LabelsReaderGT")
         if tier == "thorough":
-            provs = ("VideoReader", "LabelsReader")
+            provs = ("VideoReader", "LabelsReader", "LabelsReaderGT")
         else:
             provs = (provider,)
         for pv in provs:
@@ -438,7 +454,7 @@ def run(tier, seed):
     for i in range(n_free):
         n = rng.choice([0, 1, 2, 3, 5, 8, 13, 24, 40]) if i % 3 else rng.randint(0, 12)
         cfg = dict(n=n, cap=rng.randint(1, 8), b=rng.randint(1, 8), fail=(rng.randint(1, n) if n and rng.random() < 0.35 else 0))
-        pv = "VideoReader" if i % 2 == 0 else "LabelsReader"
+        pv = "VideoReader" if i % 2 == 0 else ("LabelsReader" if i % 4 == 1 else "LabelsReaderGT")
         start = rng.randint(0, 6)
         if i % 10 == 4:               # the repository's asset video through real decoding instead of FakeVideo
             cfg["n"] = min(cfg["n"], 12)
